@@ -267,7 +267,7 @@ func (commander *Commander) RevertTransaction(ctx context.Context, parameters Pa
 	}
 
 	if !parameters.DryRun {
-		commander.monitor.RevertedTransaction(ctx, log.Data.(ledger.RevertedTransactionLogPayload).RevertTransaction, transactionToRevert)
+		commander.monitor.RevertedTransaction(ctx, transactionToRevert, log.Data.(ledger.RevertedTransactionLogPayload).RevertTransaction)
 	}
 
 	return log.Data.(ledger.RevertedTransactionLogPayload).RevertTransaction, nil
